@@ -50,6 +50,13 @@ pub fn run(tier: Tier) -> i32 {
                 rep.violation("token-table-full", v, J::obj().set("kind", J::s("token-table")).set("fill", J::i(fill as u64)).set("others", J::i(1)).set("repeats", J::i(repeats as u64)));
             }
         }
+        // retransmissions of one request must not use up the history: new tokens after ~2048 requests in total
+        for repeats in 2040usize..=2050 {
+            n += 1;
+            if let Some(v) = token_table_case_full(8, 0, 1, repeats, 3) {
+                rep.violation("token-table-full", v, J::obj().set("kind", J::s("token-table")).set("fill", J::i(0)).set("others", J::i(1)).set("repeats", J::i(repeats as u64)).set("after", J::i(3)));
+            }
+        }
         // the history of used tokens is as long on a small server as on a big one
         for max in [1usize, 2, 3] {
             for others in [1usize, 2, 3, 5, 9] {
@@ -68,8 +75,13 @@ pub fn token_table_case(fill: usize, others: usize, repeats: usize) -> Option<cr
     token_table_case_on(8, fill, others, repeats)
 }
 
-/// the same on a server with `max_clients` slots (the history of used tokens does not depend on the slot count)
 pub fn token_table_case_on(max_clients: usize, fill: usize, others: usize, repeats: usize) -> Option<crate::explore::Violation> {
+    token_table_case_full(max_clients, fill, others, repeats, 0)
+}
+
+/// the same on a server with `max_clients` slots (the history of used tokens does not depend on the slot count), and
+/// with `after` further new tokens presented after the retransmissions
+pub fn token_table_case_full(max_clients: usize, fill: usize, others: usize, repeats: usize, after: usize) -> Option<crate::explore::Violation> {
     use crate::explore::Violation;
     use crate::nc::{self, client_addr, make_token, new_server, server_addr, TokenSpec, SR};
     use crate::props::hsworld::request_datagram;
@@ -137,6 +149,11 @@ pub fn token_table_case_on(max_clients: usize, fill: usize, others: usize, repea
                 }
             }
         }
+        for k in 0..after {
+            let mut spo = TokenSpec::new(700 + k as u64, 100 + k as u8, public.clone());
+            spo.expire = 600;
+            nc::srv_process(&mut server, client_addr(60 + k as u16), &request_datagram(&make_token(&spo)))?;
+        }
         let r2 = nc::srv_process(&mut server, b, &request_datagram(&t))?;
         if let SR::Send { bytes, .. } = &r2 {
             let mut d = bytes.clone();
@@ -159,7 +176,8 @@ pub fn replay(j: &J) -> i32 {
         let repeats = j.get("repeats").and_then(|x| x.as_i()).unwrap_or(0) as usize;
         println!("token table case: {} fillers, {} other tokens, {} retransmissions of one request", fill, others, repeats);
         let max = j.get("max_clients").and_then(|x| x.as_i()).unwrap_or(8) as usize;
-        return match token_table_case_on(max, fill, others, repeats) {
+        let after = j.get("after").and_then(|x| x.as_i()).unwrap_or(0) as usize;
+        return match token_table_case_full(max, fill, others, repeats, after) {
             Some(v) => {
                 println!("RESULT: violation {} — {}", v.signature, v.message);
                 1
